@@ -57,7 +57,29 @@ _CMP = {
 }
 
 
+def _float_cmp(s, o, kind):
+    """exact comparison of an int with a concrete float (Python compares them exactly)"""
+    import math
+    if o != o:
+        return kind == 'ne'
+    if o == float('inf'):
+        return kind in ('lt', 'le', 'ne')
+    if o == float('-inf'):
+        return kind in ('gt', 'ge', 'ne')
+    if o == int(o):
+        return compare(s, int(o), kind)
+    if kind == 'eq':
+        return False
+    if kind == 'ne':
+        return True
+    if kind in ('lt', 'le'):
+        return compare(s, math.floor(o), 'le')
+    return compare(s, math.ceil(o), 'ge')
+
+
 def compare(s, o, kind):
+    if type(o) is float:
+        return _float_cmp(s, o, kind)
     x = lift(o)
     if x is None:
         return NotImplemented
@@ -279,18 +301,9 @@ def concretize(x):
     n = x.n
     if n.op == 'c':
         return n.a[0]
-    c = Ctx.cur
-    tries = 0
-    while True:
-        m = c.ensure_model()
-        v = ir.evaluate(n, m)
-        tries += 1
-        if tries > c.conc_cap:
-            c.note_inconclusive('cap:concretize')
-            raise Inconclusive('concretisation cap (%d values) at a single site' % c.conc_cap)
-        if bool(x == v):
-            x.n = ir.const(v)
-            return v
+    v = Ctx.cur.pick_value(n)
+    x.n = ir.const(v)
+    return v
 
 
 def ite(cond, a, b):
